@@ -5,6 +5,8 @@ import PdshVerif.Dsh.SignalsCancel
 import PdshVerif.Dsh.SignalsGuarded
 import PdshVerif.Dsh.SignalsFan
 import PdshVerif.Dsh.SignalsRank
+import PdshVerif.Dsh.SignalsBound
+import PdshVerif.Dsh.SignalsOnce
 import PdshVerif.Props.C03
 import PdshVerif.Props.C04
 
@@ -66,7 +68,22 @@ What is proved (for every `v`, `f`, `n`, every schedule and arrival time unless 
       most `27n + 19 + 2k + (2n + 8)d + 2n·w` steps of pdsh's threads.
       With `no_deadlock_with_signals`: every run with finitely many spurious wake-ups and signals that is continued
       as long as a thread of pdsh can move ends, and it ends with dsh() returned or exit(1) called;
+* `cancel_requested_after_drain`, `signals_thread_ended_before_return`, `ended_thread_is_silent`,
+  `progress_needs_only_sigwait`, `watchdog_stopped_first`
+      the shutdown tail ("an interrupt during the final drain"): pthread_cancel(thread_sig) is a *request* (`St.scan`);
+      the thread runs on and ends (`SAct.die`) at a cancellation point — the model lets that be any point of a handler,
+      at the latest sigwait, so every C library is covered.  The request is made only when every worker is done and no
+      slot is RCMD or READING (and, repaired shutdown, the watchdog is joined); with the repaired shutdown (`sw`, which
+      now also stands for the join of the signals thread, the repair of F20-LATEINT) dsh() returns — and frees `t[]` —
+      only after the thread has ended, and an ended thread takes no step; until then the handler that was running
+      can take every one of its steps (or whoever holds the mutex it needs can move): progress never depends on a
+      cancellation point other than sigwait.  A batch ^C taken just before the request still ends in exit(1)
+      (example at the end);
 * `exit_nonzero_on_abort`  whenever exit() was called its status is 1;
+* `fanout_respected_always`, `once_only_always`
+      C04 and C03 of *every* run of the signal-extended LTS, proved directly (no projection): with the `while` wait
+      construct threadcount ≤ fanout and at most `fanout` workers hold a connection, whatever signals arrive and
+      whatever ^Z cancels; every target is connected at most once;
 * `projects_to_fan`, `fanout_respected_without_cancel`, `once_only_without_cancel`
       projection onto the Fan LTS of C03/C04: every run in which `_cancel_pending_threads` does not run (no
       signal at all, or interrupts that only report, or an abort) is, with thd_mutex, `t[i].state`, the signals
@@ -77,8 +94,7 @@ Not proved here: that dsh.c refines the LTS (trace correspondence of `checks/c20
 RCMD/READING hosts, which the model computes at `S.lockT` and the acceptor compares); fairness of the real
 scheduler (`no_deadlock_with_signals` says a step is *possible*); the content of relayed output (C05/C06);
 -k, the watchdog, pthread_create/rcmd_create failure; plain-memory races below the granularity of wrapped
-calls (`_cancel_pending_threads`' check-then-write vs. `_update_connect_state`); deferred pthread_cancel,
-exit() racing with stdio locks, `_wdog` on the freed `t[]`.
+calls (`_cancel_pending_threads`' check-then-write vs. `_update_connect_state`); exit() racing with stdio locks.
 -/
 namespace PdshVerif.Props.C20
 open PdshVerif.Dsh.Sig
@@ -109,9 +125,10 @@ theorem batch_never_reports {v : Variant} {g sw : Bool} {f n t0 : Nat} {s : St} 
 /-- C20: the abort path.  From `abLock` (entered by a batch ^C or a second ^C) the only operations of the
     signals thread are: take thd_mutex; forward SIGINT to the next READING slot (in slot order); release
     thd_mutex — at that moment the forwarded hosts are exactly the READING hosts; exit(1).  Every such
-    operation decreases `arank ≤ 2n + 3`, until exit. -/
+    operation decreases `arank ≤ 2n + 3`, until exit.  (`a ≠ .die`: short of the thread ending on dsh()'s
+    cancellation request, which is made only when no command is running any more: `cancel_requested_after_drain`.) -/
 theorem batch_int_aborts {v : Variant} {g sw : Bool} {f n t0 : Nat} {b : Bool} {s s' : St} {a : SAct} (h : Reach v g sw f n b t0 s)
-    (hs : step s (.s a) = some s') :
+    (hs : step s (.s a) = some s') (hnd : a ≠ .die) :
     (s.spc = .abLock → a = .lockT ∧ s'.spc = .fwding 0 ∧ s'.thd = .s ∧ s'.fwds = s.fwds) ∧
     (∀ k, s.spc = .fwding k →
       (∃ j, a = .fwd j ∧ k ≤ j ∧ j < n ∧ tsAt s j = .reading ∧ s'.spc = .fwding (j + 1) ∧ s'.fwds = s.fwds ++ [j]) ∨
@@ -122,8 +139,8 @@ theorem batch_int_aborts {v : Variant} {g sw : Bool} {f n t0 : Nat} {b : Bool} {
   have ha := ainv_reach h
   have hd := step_s hs
   have hn : s.ts.length = n := (reach_params h).2.2.2.2
-  refine ⟨abort_lock hd, fun k hk => ?_, abort_exit hd, abort_rank ha hd, ?_⟩
-  · have := abort_fwd ha hd hk; rw [hn] at this; exact this
+  refine ⟨abort_lock hnd hd, fun k hk => ?_, abort_exit hnd hd, abort_rank ha hnd hd, ?_⟩
+  · have := abort_fwd ha hnd hd hk; rw [hn] at this; exact this
   · simp only [arank]; split <;> omega
 
 /-- the forwarded hosts are READING hosts ... -/
@@ -377,7 +394,7 @@ theorem no_deadlock_with_signals {v : Variant} {g sw : Bool} {f n t0 : Nat} {b :
     | none => rfl
     | some c => exact absurd (Or.inr (by rw [hx]; rfl)) hnf
   have hr : s.dpc ≠ .returned := fun hc => hnf (Or.inl hc)
-  obtain ⟨l, hp, hen⟩ := progress_inv hinv hfs hx hr
+  obtain ⟨l, hp, hen⟩ := progress_move hinv hfs hx hr
   cases hs : step s l with
   | none => rw [hs] at hen; cases hen
   | some s' =>
@@ -407,23 +424,97 @@ theorem steps_bounded_with_signals {v : Variant} {g sw : Bool} {f n t0 : Nat} {b
         2 * n * ls.countP Label.isWdogWake :=
   steps_bounded he
 
-/-- C20 with the repaired shutdown (`sw`, the repair of F07-STALEID): dsh() cancels the signals thread only after
+/-- C20 with the repaired shutdown (`sw`, the repair of F07-STALEID): dsh() asks the signals thread to end only after
     the watchdog has been cancelled and joined; the watchdog has ended by then and holds nothing; and the
     watchdog never holds threadcount_mutex.  (With `no_deadlock_with_signals`: the join cannot hang — while dsh()
     waits for the watchdog the signals thread is still alive and releases thd_mutex, which is why the watchdog is
     stopped first.) -/
 theorem watchdog_stopped_first {v : Variant} {g : Bool} {f n t0 : Nat} {b : Bool} {s : St}
-    (h : Reach v g true f n b t0 s) (hc : s.spc = .cancelled) :
+    (h : Reach v g true f n b t0 s) (hc : s.scan = true) :
     s.gjoin = true ∧ s.gpc = .ended ∧ s.thd ≠ .g ∧ s.own ≠ .g := by
   have hinv := inv_reach h
   have hsw : s.sw = true := by
     obtain ⟨ls, he⟩ := h
     have := exec_sw he
     simpa [init] using this
-  have hj := hinv.w.scanc hc hsw
+  have hj := hinv.c.joined hc hsw
   have he := (hinv.w.join hj).2
   refine ⟨hj, he, ?_, hinv.w.ownG⟩
   intro ht; have := hinv.w.thdG2 ht; rw [he] at this; cases this
+
+/-! ## the shutdown tail: deferred cancellation of the signals thread -/
+
+/-- C20: dsh() asks the signals thread to end (pthread_cancel, deferred) only when it is past the final drain: every
+    worker is done (or its slot was canceled before a thread existed) and no slot is "connecting" or "in
+    progress" — an abort that the request cuts short leaves no running command unsignalled -/
+theorem cancel_requested_after_drain {v : Variant} {g sw : Bool} {f n t0 : Nat} {b : Bool} {s : St}
+    (h : Reach v g sw f n b t0 s) (hc : s.scan = true) :
+    (s.dpc = .finishing ∨ s.dpc = .returned) ∧
+    ∀ j, j < n → (pc s j = .done ∨ pc s j = .idle) ∧ tsAt s j ≠ .rcmd ∧ tsAt s j ≠ .reading := by
+  have hinv := inv_reach h
+  have hd := hinv.c.fin hc
+  have hfin : s.dpc.finished = true := by rcases hd with h' | h' <;> rw [h'] <;> rfl
+  have hn : s.ts.length = n := (reach_params h).2.2.2.2
+  refine ⟨hd, fun j hj => ?_⟩
+  have hp := hinv.f.fin hfin j (by rw [← hinv.t.len, hn]; exact hj)
+  have hok := hinv.t.ok j
+  rcases hp with hp | hp
+  · refine ⟨Or.inl hp, ?_, ?_⟩ <;> (intro hc'; rw [hp, hc'] at hok; simp [okTS] at hok)
+  · refine ⟨Or.inr hp, ?_, ?_⟩ <;> (intro hc'; rw [hp, hc'] at hok; simp [okTS] at hok)
+
+/-- C20, the repair of F20-LATEINT (the repaired shutdown `sw` joins the signals thread): when dsh() has returned —
+    it goes on to free `t[]` — the signals thread has ended: whatever handler was running when the cancellation was
+    requested has run to its end first -/
+theorem signals_thread_ended_before_return {v : Variant} {g : Bool} {f n t0 : Nat} {b : Bool} {s : St}
+    (h : Reach v g true f n b t0 s) (hr : s.dpc = .returned) : s.scan = true ∧ s.spc = .cancelled := by
+  have hinv := inv_reach h
+  have hsw : s.sw = true := by
+    obtain ⟨ls, he⟩ := h
+    have := exec_sw he
+    simpa [init] using this
+  have := hinv.c.ret hr
+  exact ⟨this.1, this.2 hsw⟩
+
+/-- ... and a thread that has ended takes no step: nothing walks `t[]` after the return -/
+theorem ended_thread_is_silent {s : St} (hc : s.spc = .cancelled) (a : SAct) : step s (.s a) = none := by
+  simp only [step]
+  split
+  · rfl
+  · cases a <;> simp [sStep, hc]
+
+/-- C20: the cancellation takes effect only after it was requested -/
+theorem ends_only_on_request {s s' : St} (hs : step s (.s .die) = some s') : s.scan = true ∧ s'.spc = .cancelled := by
+  have hd := step_s hs
+  simp only [sStep] at hd
+  split at hd <;> simp at hd
+  rename_i hg
+  subst hd
+  exact ⟨hg.1, rfl⟩
+
+/-- C20 (progress during the shutdown tail, and everywhere else): until dsh() has returned or exit() was called some
+    thread of pdsh can take a step *that is not the signals thread giving way to the cancellation request* — the
+    handler that was running when dsh() asked it to end can take every one of its steps, or the holder of the mutex
+    it needs can move — unless the signals thread is back in sigwait with the request pending, where it ends.  So
+    progress depends on no cancellation point other than sigwait, whichever calls the C library treats as such -/
+theorem progress_needs_only_sigwait {v : Variant} {g sw : Bool} {f n t0 : Nat} {b : Bool} {s : St} (hf : 0 < f)
+    (h : Reach v g sw f n b t0 s) (hnf : ¬ Final s) :
+    (∃ l s', l.spurious = false ∧ l.isEnv = false ∧ l ≠ .s .die ∧ step s l = some s') ∨
+    (s.scan = true ∧ s.spc = .waiting) := by
+  have hinv := inv_reach h
+  have hfs : 0 < s.f := by rw [(reach_params h).2.1]; exact hf
+  have hx : s.exited = none := by
+    cases hx : s.exited with
+    | none => rfl
+    | some c => exact absurd (Or.inr (by rw [hx]; rfl)) hnf
+  have hr : s.dpc ≠ .returned := fun hc => hnf (Or.inl hc)
+  rcases progress_inv hinv hfs hx hr with ⟨l, hp, hne, hen⟩ | hw
+  · left
+    cases hs : step s l with
+    | none => rw [hs] at hen; cases hen
+    | some s' =>
+      simp only [Label.proper, Bool.and_eq_true, Bool.not_eq_true'] at hp
+      exact ⟨l, s', hp.1, hp.2, hne, hs⟩
+  · exact Or.inr hw
 
 /-- C20: no thread of pdsh holds threadcount_mutex and thd_mutex at the same time (hence no thread waits for one
     mutex while holding the other: the lock graph has no edges, let alone a cycle) -/
@@ -456,6 +547,32 @@ theorem once_only_without_cancel {v : Variant} {g sw : Bool} {f n t0 : Nat} {b :
     (ls.filterMap projL).count (.w i .connectBegin) ≤ 1 :=
   PdshVerif.Props.C03.once_only (projects_to_fan he hl) i
 
+/-! ## C04 and C03 of every run, cancellations included -/
+
+/-- C04 at full strength: `while` wait construct, every run — whatever signals arrive, whatever ^Z cancels —
+    threadcount never exceeds the fanout, and the workers that hold a connection (from the begin of rcmd_connect to
+    the end of rcmd_destroy) are at most `fanout` -/
+theorem fanout_respected_always {g sw : Bool} {f n t0 : Nat} {b : Bool} {ls : List Label} {s : St}
+    (he : Exec (init .whileWait g sw f n b t0) ls s) : s.tc ≤ f ∧ s.ws.countP connected ≤ f := by
+  have hb := binv_exec he
+  have hf : s.f = f := by
+    have := (exec_params he).2.1
+    simpa [init] using this
+  have hinv := inv_exec (inv_init .whileWait g sw f n b t0) he
+  have h1 : s.tc ≤ f := by rw [← hf]; exact hb.le
+  refine ⟨h1, ?_⟩
+  have h2 : s.ws.countP connected ≤ s.ws.countP counted :=
+    List.countP_mono_left (fun p _ h => connected_counted p h)
+  rw [← hinv.f.cnt] at h2
+  exact Nat.le_trans h2 h1
+
+/-- C03 at full strength: in every run, cancellations and aborts included, rcmd_connect is begun at most once per
+    target -/
+theorem once_only_always {v : Variant} {g sw : Bool} {f n t0 : Nat} {b : Bool} {ls : List Label} {s : St}
+    (he : Exec (init v g sw f n b t0) ls s) (i : Nat) : ls.count (.w i .connectBegin) ≤ 1 := by
+  have := oinv_exec (inv_init v g sw f n b t0) he (pc_init v g sw f n b t0) i
+  split at this <;> omega
+
 /-! ## non-vacuity: complete runs -/
 
 /-- -b, N = 1: ^C while the command runs: SIGINT is forwarded to host 0 and pdsh exits with status 1 -/
@@ -476,5 +593,36 @@ example : (run (init .whileWait false false 1 2 false 10)
       .d (.wake false), .d .relock, .d .unlock, .d .lock, .d .unlock, .d .cancelS, .d .ret])).map
       (fun s => (decide (s.dpc = .returned ∧ s.listed = [0] ∧ s.ncanc = 1), s.ts, s.ws)) =
     some (true, [.done, .canceled], [.done, .idle]) := by decide
+
+/-- -b, N = 1, repaired worker and shutdown: the command has completed, dsh() has stopped the watchdog; ^C arrives and
+    sigwait takes it just before dsh() asks the signals thread to end.  The request is deferred: the handler runs on
+    (nothing is READING, nothing is signalled) and calls exit(1) while dsh() waits in pthread_join -/
+example : (run (init .whileWait true true 1 1 true 10)
+    ([.d .createG, .d .createS, .d .lock, .d (.create 0), .d .unlock, .d .lock, .d .wait,
+      .w 0 .lockT, .w 0 .unlockT, .w 0 .connectBegin, .w 0 (.connectEnd true), .w 0 .lockT, .w 0 .time, .w 0 .unlockT] ++
+     [.w 0 .lockT, .w 0 .unlockT, .w 0 .destroyBegin, .w 0 .destroyEnd, .w 0 .lock, .w 0 .signal, .w 0 .unlock,
+      .d (.wake false), .d .relock, .d .unlock, .d .cancelG, .g .lockT, .g .unlockT, .d .joinG] ++
+     [.e (.deliver .int), .s (.sigwait .int), .d .cancelS, .s .lockT, .s .unlockT, .s (.exit 1)])).map
+      (fun s => (decide (s.scan = true ∧ s.dpc = .finishing), s.fwds, s.exited)) = some (true, [], some 1) := by decide
+
+/-- the same run without the interrupt: the signals thread, in sigwait, ends on the request; dsh() joins it and
+    returns; a ^C delivered afterwards is taken by nobody -/
+example : (run (init .whileWait true true 1 1 true 10)
+    ([.d .createG, .d .createS, .d .lock, .d (.create 0), .d .unlock, .d .lock, .d .wait,
+      .w 0 .lockT, .w 0 .unlockT, .w 0 .connectBegin, .w 0 (.connectEnd true), .w 0 .lockT, .w 0 .time, .w 0 .unlockT] ++
+     [.w 0 .lockT, .w 0 .unlockT, .w 0 .destroyBegin, .w 0 .destroyEnd, .w 0 .lock, .w 0 .signal, .w 0 .unlock,
+      .d (.wake false), .d .relock, .d .unlock, .d .cancelG, .g .lockT, .g .unlockT, .d .joinG] ++
+     [.d .cancelS, .s .die, .d .ret, .e (.deliver .int)])).map
+      (fun s => (decide (s.dpc = .returned ∧ s.spc = .cancelled), (step s (.s (.sigwait .int))).isSome, s.exited)) =
+    some (true, false, none) := by decide
+
+/-- ... and dsh() cannot return before the thread has ended (repaired shutdown) -/
+example : (run (init .whileWait true true 1 1 true 10)
+    ([.d .createG, .d .createS, .d .lock, .d (.create 0), .d .unlock, .d .lock, .d .wait,
+      .w 0 .lockT, .w 0 .unlockT, .w 0 .connectBegin, .w 0 (.connectEnd true), .w 0 .lockT, .w 0 .time, .w 0 .unlockT] ++
+     [.w 0 .lockT, .w 0 .unlockT, .w 0 .destroyBegin, .w 0 .destroyEnd, .w 0 .lock, .w 0 .signal, .w 0 .unlock,
+      .d (.wake false), .d .relock, .d .unlock, .d .cancelG, .g .lockT, .g .unlockT, .d .joinG] ++
+     [.e (.deliver .int), .s (.sigwait .int), .d .cancelS, .s .lockT])).map
+      (fun s => (step s (.d .ret)).isSome) = some false := by decide
 
 end PdshVerif.Props.C20
